@@ -346,9 +346,6 @@ def validators(repo, extra=()):
     for q in extra:
         if q in repo.fns:
             vs[q] = repo.fns[q]
-    for q, f in repo.fns.items():
-        if f.module in PRINTER_MODULES and f.name != "make_string_constant":
-            vs[q] = f
     return vs
 
 
